@@ -12,8 +12,8 @@ is changed (regenerated from the source on every run).  A user's set is changed 
 `Admin.capability.add/remove`, `Channel.capability.add/remove` (`Cmd.capAdd/capRemove/chanCapAdd/
 chanCapRemove`) and by the reader `IrcUserCreator.capability` (`Cmd.flushReload`); channel sets by
 `Channel.capability.set/unset` (`Cmd.chanCapSet/chanCapUnset`), by `Channel.enable/disable`
-(op-gated; they add/remove `-plugin.command` entries of the *channel* set and are not part of
-`Cmd`) and by the reader; the default set by `Owner.defaultcapability` (`Cmd.defaultCap…`) and the
+(`Cmd.chanEnable/chanDisable`: op-gated; they add/remove `-Plugin.command` entries of the
+*channel* set) and by the reader; the default set by `Owner.defaultcapability` (`Cmd.defaultCap…`) and the
 registry (`Cmd.configCaps`).  A new site makes this fail. -/
 theorem capSites_table : Gen.CapSites.sites =
     ["plugins/Admin/plugin.py:Admin.capability.add:addCapability",
@@ -48,6 +48,8 @@ theorem cap_growth_entitled (cfg : Cfg) (st : St) (pfx : Str) (c : Cmd) (hc : c 
   cases c with
   | flushReload => exact absurd rfl hc
   | reload => exact absurd rfl hr
+  | flushAll => exact body_caps cfg st pfx _ hc hr
+  | upkeep on => exact body_caps cfg st pfx _ hc hr
   | _ =>
     simp only []
     split
@@ -194,6 +196,8 @@ theorem step_preserves_inv (cfg : Cfg) (hcfg : HashSafe cfg) (st : St) (pfx : St
     cases c with
     | flushReload => exact absurd rfl hc
     | reload => exact absurd rfl hr
+    | flushAll => exact hb
+    | upkeep on => exact hb
     | _ =>
       simp only []
       split
@@ -302,6 +306,8 @@ theorem step_preserves_fileOk (cfg : Cfg) (hcfg : HashSafe cfg) (st : St) (pfx :
   cases c with
   | flushReload => exact absurd rfl hc
   | reload => exact absurd rfl hr
+  | flushAll => exact key _ rfl rfl
+  | upkeep on => exact key _ rfl rfl
   | _ =>
     simp only []
     split
